@@ -48,6 +48,7 @@ func init() {
 		ID: "C20",
 		Rules: []RuleSpec{
 			{"lock-pairing", "in pkg/network/bqueue and pkg/core/statesync every mutex acquired is released on every exit (defer-aware, boolean-correlated; the hand-unlocked Blocking branch of Queue.Put included)", func(c *Ctx) { lockPairingPkgs(c, []string{"pkg/network/bqueue", "pkg/core/statesync"}, nil, 10) }},
+			{"stage-machine", "the state jump that ends a state synchronisation is a well-formed stage machine: markers name the next clause and are persisted with the stage, and everything the jump writes to the store is in or before the batch that removes the marker (a restart at any point resumes or finds the jump complete)", ruleStageMachine},
 			{"sync-guards", "restored MPT nodes are stored only behind the hash comparison; statesync stores blocks only behind index/setting/Merkle/header-hash/stage checks; stage bits are set only after the root/sync-point test and a synchronous persist; queue slots are cleared only behind a content test; each restore call gets its own clone", ruleSyncGuards},
 			{"chan-typestate", "every send on Queue.checkBlocks holds queueLock and follows a `discarded` check made after the lock was last acquired; the channel is closed only by the function that sets the flag", ruleChanTypestate},
 		},
@@ -170,6 +171,7 @@ func init() {
 			{"hash-canonical", "every cached identity (hash/size of transaction, header, extensible, notary request) is computed from the node's own encoding, or from received bytes only if the length decoder rejects non-minimal encodings", ruleHashCanonical},
 			{"codec-symmetry", "for every type with EncodeBinary and DecodeBinary the sequences of wire primitives on the writer/reader agree token by token when both are straight-line; otherwise the sets of primitive kinds agree", ruleCodecSymmetry},
 			{"bounded-alloc", "in every binary decoder a make() sized by a decoded integer is gated by an ordering comparison of that integer", ruleBoundedAlloc},
+			{"wild-nonnil", "the stack-item and JSON decoders of a manifest never turn an explicit (possibly empty) method/trust list into the nil that means wildcard, so a stored manifest decodes to what was encoded", ruleWildNonNil},
 			{"depth-guard", "recursive witness-condition decoders (binary, stack item, JSON) test their depth parameter and pass a strictly smaller one on every recursive step", func(c *Ctx) { ruleDepthGuard(c) }},
 		},
 		NotCovered: "JSON round trips, Size() equality, value equality after decode, hangs",
